@@ -301,6 +301,18 @@ func (f *Flow) edgeFacts(from *ssa.BasicBlock, succIdx int, out Facts) Facts {
 			if res.Has(a.Negate()) != nil || (a.Pred == "truth" && a.Args[0].Key() == tTrue.Key() && a.Neg) || f.contradictsAssumption(a) {
 				return nil
 			}
+			// a value known to equal one constant cannot equal another one
+			if a.Pred == "eq" && !a.Neg && len(a.Args) == 2 {
+				x, k := a.Args[0], a.Args[1]
+				if x.Op == "const" {
+					x, k = k, x
+				}
+				if k.Op == "const" && x.Op != "const" && k.Key() != tNil.Key() {
+					if k2 := knownConst(res, x); k2 != nil && k2.Key() != k.Key() {
+						return nil
+					}
+				}
+			}
 			// a value has one dynamic type: is<A>(x) known (or assumed) excludes is<B>(x)
 			if a.Pred == "truth" && !a.Neg && a.Args[0].Op == "istype" {
 				if f.otherTypeKnown(res, a.Args[0]) {
@@ -1233,4 +1245,22 @@ func isMembershipFn(g *ssa.Function) bool {
 		}
 	}
 	return nTrue == 1 && nFalse == 1
+}
+
+// knownConst: the (non-nil) constant that the facts say x equals, if any.
+func knownConst(facts Facts, x *Term) *Term {
+	xk := x.Key()
+	for _, f := range facts {
+		if f.Pred != "eq" || f.Neg || len(f.Args) != 2 {
+			continue
+		}
+		a, b := f.Args[0], f.Args[1]
+		if a.Key() == xk && b.Op == "const" && b.Key() != tNil.Key() {
+			return b
+		}
+		if b.Key() == xk && a.Op == "const" && a.Key() != tNil.Key() {
+			return a
+		}
+	}
+	return nil
 }
